@@ -87,7 +87,8 @@ def r2(ctx, rep):
     ok = False
     for i in walk(g["body"]):
         if i.get("k") == "if" and i["c"].get("k") == "let" and "named_args" in show(i["c"]["e"]):
-            ok = any(r.get("k") == "return" and show(r.get("e"), maxdepth=4).startswith("Err(") for r in walk(i["t"])) and any("unknown named argument" in s for s in strs(i["t"]))
+            import guards as _gy
+            ok = _gy.yields_err(g["body"], i, i["t"]) and any("unknown named argument" in s for s in strs(i["t"]))
     rep.check(ok, "unknown-named", "a named argument that matches no named parameter must be an error", file=g["file"], line=g["l"], fn=g["path"])
     # named args are consumed by `remove`, so what is left is exactly the unknown ones
     rem = [n for n in walk(g["body"]) if n.get("k") == "mcall" and n["m"] == "remove" and show(n["r"]) == "named_args"]
@@ -281,7 +282,7 @@ def r7(ctx, rep):
     stmts = g["body"]["s"]
     idx = None
     for j, st in enumerate(stmts):
-        if st.get("k") == "if" and st["c"].get("k") == "let" and "named_args" in show(st["c"]["e"]) and any(r.get("k") == "return" and show(r.get("e"), maxdepth=3).startswith("Err(") for r in walk(st["t"])):
+        if st.get("k") == "if" and st["c"].get("k") == "let" and "named_args" in show(st["c"]["e"]) and __import__("guards").yields_err(g["body"], st, st["t"]):
             idx = j
     early = []
     if idx is not None:
@@ -339,14 +340,18 @@ def r8(ctx, rep):
     # (a) ast_expand: the argument lists of a call reach the resolver unfiltered
     f = syn.fn("ast_expand::expand_expr", crate="prqlc")
     n_lists = 0
-    for n in walk(f["body"]):
-        if n.get("k") == "struct" and last_seg(n["p"]) == "FuncCall":
-            for fname, fv in n["f"]:
-                if fname in ("args", "named_args"):
-                    n_lists += 1
-                    dropping = sorted({c["m"] for c in walk(fv) if c.get("k") == "mcall" and c["m"] in DROPPING})
-                    rep.check(not dropping, f"expand:FuncCall.{fname}", f"expand_expr builds FuncCall.{fname} through {dropping}: an argument removed here is never seen by the resolver's "
-                              "unknown-named-argument / too-many-arguments checks", file=f["file"], line=n["l"], fn=f["path"])
+    # (the PL call is built in expand_expr or in a private helper of the same file that it calls)
+    builders = [f] + [h for h in syn.fns_in_file("semantic/ast_expand.rs") if "body" in h and h is not f and h["crate"] == "prqlc" and
+                      any(c_.get("k") == "call" and last_seg(show(c_["f"])) == h["name"] for c_ in walk(f["body"]))]
+    for bf in builders:
+        for n in walk(bf["body"]):
+            if n.get("k") == "struct" and last_seg(n["p"]) == "FuncCall" and not n["p"].startswith("pr::"):
+                for fname, fv in n["f"]:
+                    if fname in ("args", "named_args"):
+                        n_lists += 1
+                        dropping = sorted({c["m"] for c in walk(fv) if c.get("k") == "mcall" and c["m"] in DROPPING})
+                        rep.check(not dropping, f"expand:FuncCall.{fname}", f"{bf['name']} builds FuncCall.{fname} through {dropping}: an argument removed here is never seen by the resolver's "
+                                  "unknown-named-argument / too-many-arguments checks", file=bf["file"], line=n["l"], fn=bf["path"])
     rep.check(n_lists == 2, "expand:FuncCall", f"expected FuncCall.args and FuncCall.named_args to be rebuilt in expand_expr, found {n_lists}", file=f["file"], line=f["l"], fn=f["path"])
     # (b) Module::lookup: every return is after the loop over the redirects (direct and redirected candidates are united)
     lk = syn.fn("Module::lookup", crate="prqlc")
